@@ -1,0 +1,253 @@
+//! Verification seams. Compiled only with `--cfg cachelito_verif`; a normal build never sees
+//! this module, so shipped behaviour is unchanged.
+//!
+//! Three seams are provided to a deterministic simulator:
+//!
+//! * a **simulated clock** that replaces `std::time::{Instant, SystemTime}` in the cache
+//!   modules (they alias `std` to [`sim_std`] under the guard);
+//! * a **scheduling point** callback invoked before every operation on the statistics
+//!   counters (lets a controlled scheduler preempt between atomic operations);
+//! * **deterministic collections** ([`sim_std_det`]) for the invalidation registry, so that the
+//!   order in which several caches are visited does not depend on per-process hash seeds.
+
+use ::std::sync::atomic::{AtomicI64, AtomicUsize, Ordering};
+
+/// Unix time (seconds) that corresponds to simulated time zero.
+pub const EPOCH_BASE_SECS: i64 = 1_700_000_000;
+
+static NOW_NS: AtomicI64 = AtomicI64::new(0);
+static SCHED_POINT: AtomicUsize = AtomicUsize::new(0);
+static CLOCK_READS: AtomicUsize = AtomicUsize::new(0);
+
+/// Sets the simulated clock (nanoseconds since simulated time zero; may be negative).
+pub fn set_now_ns(ns: i64) {
+    NOW_NS.store(ns, Ordering::SeqCst);
+}
+
+/// Reads the simulated clock without counting as a clock read of the code under test.
+pub fn peek_now_ns() -> i64 {
+    NOW_NS.load(Ordering::SeqCst)
+}
+
+/// Advances the simulated clock (negative values move it backwards).
+pub fn advance_ns(delta: i64) {
+    NOW_NS.fetch_add(delta, Ordering::SeqCst);
+}
+
+/// Number of clock reads performed by the code under test so far.
+pub fn clock_reads() -> usize {
+    CLOCK_READS.load(Ordering::SeqCst)
+}
+
+fn now_ns() -> i64 {
+    CLOCK_READS.fetch_add(1, Ordering::Relaxed);
+    NOW_NS.load(Ordering::SeqCst)
+}
+
+/// Installs the function called before every statistics-counter operation.
+pub fn set_sched_point(f: fn()) {
+    SCHED_POINT.store(f as usize, Ordering::SeqCst);
+}
+
+/// Removes the scheduling-point function.
+pub fn clear_sched_point() {
+    SCHED_POINT.store(0, Ordering::SeqCst);
+}
+
+#[inline]
+fn sched_point() {
+    let p = SCHED_POINT.load(Ordering::Relaxed);
+    if p != 0 {
+        // SAFETY: only ever written from a `fn()` in `set_sched_point`.
+        let f: fn() = unsafe { ::std::mem::transmute::<usize, fn()>(p) };
+        f();
+    }
+}
+
+/// Drop-in for `std` with a simulated clock and instrumented `AtomicU64`.
+pub mod sim_std {
+    pub use ::std::*;
+
+    pub mod time {
+        pub use ::std::time::Duration;
+        use ::std::ops::{Add, Sub};
+
+        /// Simulated monotonic instant (nanoseconds of simulated time).
+        #[derive(Clone, Copy, Debug, PartialEq, Eq, PartialOrd, Ord, Hash)]
+        pub struct Instant(i64);
+
+        impl Instant {
+            pub fn now() -> Self {
+                Instant(super::super::now_ns())
+            }
+            pub fn elapsed(&self) -> Duration {
+                Instant::now().saturating_duration_since(*self)
+            }
+            pub fn duration_since(&self, earlier: Instant) -> Duration {
+                self.saturating_duration_since(earlier)
+            }
+            pub fn saturating_duration_since(&self, earlier: Instant) -> Duration {
+                Duration::from_nanos(self.0.saturating_sub(earlier.0).max(0) as u64)
+            }
+            pub fn checked_duration_since(&self, earlier: Instant) -> Option<Duration> {
+                if self.0 >= earlier.0 {
+                    Some(Duration::from_nanos((self.0 - earlier.0) as u64))
+                } else {
+                    None
+                }
+            }
+            pub fn checked_add(&self, d: Duration) -> Option<Instant> {
+                i64::try_from(d.as_nanos()).ok().and_then(|n| self.0.checked_add(n)).map(Instant)
+            }
+            pub fn checked_sub(&self, d: Duration) -> Option<Instant> {
+                i64::try_from(d.as_nanos()).ok().and_then(|n| self.0.checked_sub(n)).map(Instant)
+            }
+        }
+        impl Add<Duration> for Instant {
+            type Output = Instant;
+            fn add(self, d: Duration) -> Instant {
+                self.checked_add(d).expect("overflow when adding duration to instant")
+            }
+        }
+        impl Sub<Duration> for Instant {
+            type Output = Instant;
+            fn sub(self, d: Duration) -> Instant {
+                self.checked_sub(d).expect("overflow when subtracting duration from instant")
+            }
+        }
+        impl Sub<Instant> for Instant {
+            type Output = Duration;
+            fn sub(self, other: Instant) -> Duration {
+                self.saturating_duration_since(other)
+            }
+        }
+
+        /// Error of [`SystemTime::duration_since`] when `earlier` is later than `self`.
+        #[derive(Clone, Debug)]
+        pub struct SystemTimeError(Duration);
+        impl SystemTimeError {
+            pub fn duration(&self) -> Duration {
+                self.0
+            }
+        }
+        impl ::std::fmt::Display for SystemTimeError {
+            fn fmt(&self, f: &mut ::std::fmt::Formatter<'_>) -> ::std::fmt::Result {
+                write!(f, "second time provided was later than self")
+            }
+        }
+        impl ::std::error::Error for SystemTimeError {}
+
+        /// Simulated wall clock (nanoseconds since the Unix epoch).
+        #[derive(Clone, Copy, Debug, PartialEq, Eq, PartialOrd, Ord, Hash)]
+        pub struct SystemTime(i128);
+
+        pub const UNIX_EPOCH: SystemTime = SystemTime(0);
+
+        impl SystemTime {
+            pub const UNIX_EPOCH: SystemTime = SystemTime(0);
+            pub fn now() -> Self {
+                SystemTime(
+                    super::super::EPOCH_BASE_SECS as i128 * 1_000_000_000
+                        + super::super::now_ns() as i128,
+                )
+            }
+            pub fn duration_since(&self, earlier: SystemTime) -> Result<Duration, SystemTimeError> {
+                let d = self.0 - earlier.0;
+                if d >= 0 {
+                    Ok(Duration::new((d / 1_000_000_000) as u64, (d % 1_000_000_000) as u32))
+                } else {
+                    let d = -d;
+                    Err(SystemTimeError(Duration::new(
+                        (d / 1_000_000_000) as u64,
+                        (d % 1_000_000_000) as u32,
+                    )))
+                }
+            }
+            pub fn elapsed(&self) -> Result<Duration, SystemTimeError> {
+                SystemTime::now().duration_since(*self)
+            }
+        }
+    }
+
+    pub mod sync {
+        pub use ::std::sync::*;
+
+        pub mod atomic {
+            pub use ::std::sync::atomic::*;
+
+            /// `AtomicU64` that announces every operation to the installed scheduling point.
+            #[derive(Debug, Default)]
+            pub struct AtomicU64(::std::sync::atomic::AtomicU64);
+
+            impl AtomicU64 {
+                pub const fn new(v: u64) -> Self {
+                    AtomicU64(::std::sync::atomic::AtomicU64::new(v))
+                }
+                pub fn load(&self, o: Ordering) -> u64 {
+                    super::super::super::sched_point();
+                    self.0.load(o)
+                }
+                pub fn store(&self, v: u64, o: Ordering) {
+                    super::super::super::sched_point();
+                    self.0.store(v, o)
+                }
+                pub fn swap(&self, v: u64, o: Ordering) -> u64 {
+                    super::super::super::sched_point();
+                    self.0.swap(v, o)
+                }
+                pub fn fetch_add(&self, v: u64, o: Ordering) -> u64 {
+                    super::super::super::sched_point();
+                    self.0.fetch_add(v, o)
+                }
+                pub fn fetch_sub(&self, v: u64, o: Ordering) -> u64 {
+                    super::super::super::sched_point();
+                    self.0.fetch_sub(v, o)
+                }
+                pub fn compare_exchange(
+                    &self,
+                    c: u64,
+                    n: u64,
+                    s: Ordering,
+                    f: Ordering,
+                ) -> Result<u64, u64> {
+                    super::super::super::sched_point();
+                    self.0.compare_exchange(c, n, s, f)
+                }
+                pub fn compare_exchange_weak(
+                    &self,
+                    c: u64,
+                    n: u64,
+                    s: Ordering,
+                    f: Ordering,
+                ) -> Result<u64, u64> {
+                    super::super::super::sched_point();
+                    self.0.compare_exchange_weak(c, n, s, f)
+                }
+                pub fn fetch_update<F>(&self, s: Ordering, f: Ordering, g: F) -> Result<u64, u64>
+                where
+                    F: FnMut(u64) -> Option<u64>,
+                {
+                    super::super::super::sched_point();
+                    self.0.fetch_update(s, f, g)
+                }
+                pub fn get_mut(&mut self) -> &mut u64 {
+                    self.0.get_mut()
+                }
+                pub fn into_inner(self) -> u64 {
+                    self.0.into_inner()
+                }
+            }
+        }
+    }
+}
+
+/// Like [`sim_std`], with ordered maps and sets in place of hashed ones.
+pub mod sim_std_det {
+    pub use super::sim_std::*;
+
+    pub mod collections {
+        pub use ::std::collections::*;
+        pub type HashMap<K, V> = ::std::collections::BTreeMap<K, V>;
+        pub type HashSet<K> = ::std::collections::BTreeSet<K>;
+    }
+}
